@@ -402,7 +402,7 @@ def legs(tier):
             valid=valid_rnp_five, floor=0.03, shards=16),
         Leg("few-distinct-values", evaluate,
             "hypothesis: snp / rnp / ckk / complete greedy on 8-10 items drawn from 2-4 distinct values, 3-4 bins, as a list or an array; "
-            "same oracle and rule", strategy=few_values_cases(), n_quick=5000, n_thorough=60000, valid=valid_few_values, floor=0.02, shards=16),
+            "same oracle and rule", strategy=few_values_cases(), n_quick=5000, n_thorough=20000, valid=valid_few_values, floor=0.02, shards=16),
         Leg("five-six-bins", evaluate,
             "hypothesis: snp / ckk / complete greedy (three objectives) with 5 bins x 9-10 items and 6 bins x 8-9 items, values up to 20 ... 1000; "
             "same oracle and rule", strategy=five_six_bins_cases(), n_quick=480, n_thorough=40000, valid=valid_five_six, floor=0.03, shards=16),
